@@ -766,7 +766,6 @@ class EncodingParser(object):
         return self.handlePossibleTag(False)
 
     def handlePossibleEndTag(self):
-        next(self.data)
         return self.handlePossibleTag(True)
 
     def handlePossibleTag(self, endTag):
